@@ -296,11 +296,22 @@ def species_graph(rep):
     for var, mkey, lkey, side in ((b["sr"], "stoich_r_map", "stoich_r", "reactant"), (b["sp"], "stoich_p_map", "stoich_p", "product")):
         ds = [d for d in rdefs.get(var, []) if d.kind == "assign"]
         maps, legs = inv.get(mkey, []), inv.get(lkey, [])
-        from_map = [d for d in ds if maps and norm(d.value) == f"{maps[0]}.get({b['eid']})"]
-        from_leg = [d for d in ds if legs and norm(d.value) == legs[0]]
-        other = [d for d in ds if d not in from_map and d not in from_leg and not is_const(d.value, None) and
+        # a definition may be a conditional expression (`x = m.get(eid) if isinstance(m, dict) else None`): classify its alternatives
+        def alts(d_):
+            return [x for x in if_leaves(d_.value) if not is_const(x, None) and not (isinstance(x, ast.Name) and x.id == var)]
+        from_map = [d for d in ds if maps and alts(d) and all(norm(x) == f"{maps[0]}.get({b['eid']})" for x in alts(d))]
+        from_leg = [d for d in ds if legs and alts(d) and all(norm(x) == legs[0] for x in alts(d))]
+        other = [d for d in ds if d not in from_map and d not in from_leg and alts(d) and
                  pmatch(f"int({var}) if {var} is not None else 1", d.value) is None]
-        ok = bool(from_map) and bool(from_leg) and not other and any(norm(t) == f"{var} is None" and s for t, s in guards_of(pm, from_leg[0].stmt, r.node))
+
+        def legacy_is_fallback(d_):
+            # taken only while the per-reaction value is missing: an `if var is None:` guard, or the test of the conditional expression itself
+            if any(norm(t) == f"{var} is None" and s_ for t, s_ in guards_of(pm, d_.stmt, r.node)):
+                return True
+            v_ = d_.value
+            return isinstance(v_, ast.IfExp) and ((norm(v_.test) == f"{var} is None" and norm(v_.body) == legs[0]) or (norm(v_.test) == f"{var} is not None" and norm(v_.orelse) == legs[0]))
+        ok = bool(from_map) and bool(from_leg) and not other and legacy_is_fallback(from_leg[0]) \
+            and min(d.stmt.lineno for d in from_map) < min(d.stmt.lineno for d in from_leg)
         rep.ob("O16.2", "R3b", r, ok, f"{side} coefficient <- {mkey}.get(eid), else {lkey}", f"{side} coefficient: the per-reaction map wins, the aggregated legacy value is only a fallback",
                {"other_sources": [alpha(d.stmt, r.node)[:60] for d in other]})
     # eids come from `via`
